@@ -7,7 +7,8 @@
    trace inclusion of the lock events (Corr/C09Run.v) and by the watchdog harness (harness/cmd/c09).
    PARTIAL by nature: the Go scheduler and memory model, fairness and wall-clock time are outside the model;
    the model proves ownership discipline, exits of waits and deadlock freedom, the watchdog observes liveness. *)
-From GL Require Import Conc.Locks Conc.LocksProofs Conc.LocksDeadlock Conc.LocksInv.
+From GL Require Import Conc.Locks Conc.LocksProofs Conc.LocksDeadlock Conc.LocksInv Conc.LocksInvBg Conc.LocksInvAll
+  Conc.LocksClose.
 
 (* 1. locks_balanced.  In every reachable state of the repaired code (any number of clients, any schedule,
       any outcome of the storage operations, Close at any point) what a client holds is a function of where
@@ -60,25 +61,110 @@ Theorem C09_error_exits : forall pc,
 Proof. exact error_exits. Qed.
 Print Assumptions C09_error_exits.
 
-(* 3. no_deadlock (PARTIAL).  Full statement (not yet proved):
+(* 3. no_deadlock (FULL for the model).  In every reachable state in which some client is inside a call (or owns
+      an open transaction that it has not yet committed or discarded) some step other than a new arrival is
+      enabled: no state of the model is a deadlock.  Proof: the lock-ownership invariant inv1 and the protocol
+      invariant inv2 (Conc/LocksDeadlock.v: ack tickets, merge protocol, pause protocol, Close, transaction
+      ownership) hold in every reachable state -- inv2 is preserved by every step of a client (one lemma per
+      label, Conc/LocksInv.v, dispatched in Conc/LocksInvAll.v) and by every step of mCompaction, tCompaction and
+      compactionError (Conc/LocksInvBg.v) -- and inv1 /\ inv2 imply progress (Conc/LocksDeadlock.v).
+      Outside: that the Go scheduler eventually runs an enabled step (fairness), wall-clock time. *)
+Theorem C09_inv2_reachable : forall s, reachable fixed s -> inv2 s.
+Proof. exact inv2_reachable. Qed.
+Print Assumptions C09_inv2_reachable.
 
-        forall s, reachable fixed s -> pending s ->
-          exists a, is_arrival fixed s a = false /\ exists s', step fixed s a = Some s'.
+Theorem C09_no_deadlock : forall s, reachable fixed s -> pending s ->
+  exists a, is_arrival fixed s a = false /\ exists s', step fixed s a = Some s'.
+Proof. exact no_deadlock. Qed.
+Print Assumptions C09_no_deadlock.
 
-      Proved: the same with the protocol invariant inv2 (Conc/LocksDeadlock.v: ack tickets, merge protocol,
-      pause protocol, Close, transaction ownership) as a hypothesis.  inv2 holds in the initial state and is
-      preserved by every step of a client (one lemma per label, Conc/LocksInv.v, e.g. the four below); its
-      preservation by the steps of mCompaction / tCompaction / compactionError is not proved yet. *)
+(*    Non-vacuity: a reachable state with calls in progress -- client 0 is inside a Put and holds the write lock
+      (at the merge point), client 1 is inside Close and has closed closeC. *)
+Definition c09_pre : list action :=
+  [ACli 0 0 0; ACli 0 1 0; ACli 0 0 0; ACli 0 0 0; ACli 1 7 0; ACli 1 0 0; ACli 1 0 0; ACli 1 0 0].
+Definition c09_s0 : state := match run fixed init c09_pre with Some s => s | None => init end.
+Example C09_no_deadlock_nonvacuous :
+  reachable fixed c09_s0 /\ pending c09_s0 /\
+  (cli c09_s0 0, cli c09_s0 1, closeC c09_s0, wl c09_s0) = (WM true, CL3, true, WHeld (PCli 0)).
+Proof.
+  split; [| split].
+  - apply (run_reachable c09_pre init); [apply reach_init | vm_compute; reflexivity].
+  - exists 0. vm_compute. discriminate.
+  - vm_compute. reflexivity.
+Qed.
+
+(*    The hypothesis-carrying form that was proved first (kept: it is the progress argument itself). *)
 Theorem C09_no_deadlock_partial : forall s, reachable fixed s -> inv2 s -> pending s ->
   exists a, is_arrival fixed s a = false /\ exists s', step fixed s a = Some s'.
 Proof. intros s R I2 P. exact (progress s (inv1_reachable s R) I2 P). Qed.
 Print Assumptions C09_no_deadlock_partial.
 
+(*    no_lost_wakeup.  While a client waits for the acknowledgement of a compaction command (second select of
+      compTriggerWait) the addressed goroutine still holds the acknowledgement channel -- as its current command
+      or, for tCompaction, in its wait queue -- and stands at a point from which every path, the exit paths at
+      closeC / a persistent error included, sends the acknowledgement (x.ack(err) in the loop, x.ack(ErrClosed)
+      and waitQ[i].ack(ErrClosed) in the deferred exit code).  The waiting select itself also lists compErrC and
+      closeC (C09_error_exits). *)
+Theorem C09_no_lost_wakeup : forall s i, reachable fixed s ->
+  (is_trigw BM (cli s i) = true -> mx s = Some (i, ctk s i) /\ mc s <> M0 /\ mc s <> MDone) /\
+  (is_trigw BT (cli s i) = true ->
+     (tx s = Some (i, ctk s i) /\ tx_none_pc (tc s) = false) \/
+     (In (i, ctk s i) (tq s) /\ tc s <> T2 /\ tc s <> TDone)).
+Proof. exact ack_registered. Qed.
+Print Assumptions C09_no_lost_wakeup.
+
+(* 3b. close_terminates (PARTIAL: the measure-based core).  Full statement (NOT proved, and false for the model
+      as for the code without a probabilistic reading of select): from every reachable state in which Close has
+      closed closeC, every maximal run without new calls, under weak fairness, returns from Close.  Reason: Go
+      picks at random among the ready cases of a select; a run in which a select with a ready closeC case keeps
+      taking another ready case (flush's write-delay loop sends its command, tCompaction accepts it, ...) is a
+      run of the model and of the code -- of probability 0.
+      Proved (Conc/LocksClose.v): call a step GOOD when it is not a new call (no edge out of Idle; the owner of a
+      Transaction handle does nothing but Discard it, its documented obligation) and the goroutine, when it
+      stands at a select that lists closeC, takes the closeC case (compactionError: its closeC case).  With
+      measure N s = 200 * (sum over the clients below N of their distance to the end of the call) +
+      10 * distance of mCompaction to its exit + distance of tCompaction to its exit + length of its wait
+      queue + (compactionError still running):
+        - every good step of a reachable state with closeC closed strictly decreases the measure;
+        - hence every run of good steps has at most [measure] steps;
+        - as long as some client is not Idle a good step is enabled (from no_deadlock);
+        - hence a run of good steps that cannot be extended ends with every client Idle: Close has returned,
+          and so has every other call.
+      Outside: scheduler fairness, the random choice of select, wall-clock time. *)
+Theorem C09_close_good_step_decreases : forall N s a s', inv2 s -> closeC s = true -> support N s ->
+  good s a = true -> step fixed s a = Some s' -> measure N s' < measure N s.
+Proof. exact good_step_decreases. Qed.
+Print Assumptions C09_close_good_step_decreases.
+
+Theorem C09_close_good_step_enabled : forall s, reachable fixed s -> closeC s = true -> pending s ->
+  exists a s', good s a = true /\ step fixed s a = Some s'.
+Proof. exact good_enabled. Qed.
+Print Assumptions C09_close_good_step_enabled.
+
+Theorem C09_close_terminates_partial : forall s, reachable fixed s -> closeC s = true ->
+  exists B, forall l s', grun s l = Some s' ->
+    length l <= B /\ ((forall a, grun s' [a] = None) -> forall i, cli s' i = Idle).
+Proof. exact close_terminates_core. Qed.
+Print Assumptions C09_close_terminates_partial.
+
+(*    Non-vacuity: from the state above (a Put holds the write lock, Close has closed closeC) a run of 16 good
+      steps ends with both clients Idle, both compaction goroutines and compactionError gone, the write lock
+      kept by the closed DB, measure 0 (from 4226). *)
+Definition c09_close_run : list action :=
+  [ACli 0 2 0; ACli 0 0 0; ACli 0 0 0; ACli 0 2 0; ACli 0 0 0; ACli 1 1 0; ACli 1 0 0; AM 0; AM 0; AT 0; AT 0; AT 1;
+   ACli 1 0 0; ACli 1 0 0; ACli 1 0 0; ACE 1].
+Example C09_close_terminates_nonvacuous :
+  match grun c09_s0 c09_close_run with
+  | Some s => Some (cli s 0, cli s 1, mc s, tc s, ce s, wl s, measure 2 c09_s0, measure 2 s)
+  | None => None
+  end = Some (Idle, Idle, MDone, TDone, E_done, WClosed, 4226, 0).
+Proof. vm_compute. reflexivity. Qed.
+
 Theorem C09_inv2_init : inv2 init.
 Proof. exact (inv2_of_parts init inv2'_init). Qed.
 Print Assumptions C09_inv2_init.
 
-(*    Four of the per-label preservation lemmas (all of them are in Conc/LocksInv.v): releasing the write lock,
+(*    Four of the per-label preservation lemmas for client steps (all of them are in Conc/LocksInv.v): releasing the write lock,
       handing it to the overflowed merge writer, handing it to the Transaction, setDone. *)
 Theorem C09_inv2_release_write_lock : forall s i pc' l, inv1 s -> inv2' s -> wl s = WHeld (PCli i) ->
   (l = LRelW \/ (l = LRelWU /\ merged s = [] /\ pend s = None)) ->
@@ -105,6 +191,22 @@ Theorem C09_inv2_set_done : forall s i pc', inv1 s -> inv2' s -> wl s = WTr -> t
   inv2' (set_pc (set_trown (set_wl s WFree) None) i pc').
 Proof. exact step_reltr. Qed.
 Print Assumptions C09_inv2_set_done.
+
+(*    What "the owner's obligation" means, on a concrete schedule (also reproduced on the implementation, see
+      findings/C09_close_waits_for_late_transaction.json): OpenTransaction (client 0) passes the closed test and
+      takes the write lock, Close (client 1) sets closed, closes closeC and reads db.tr == nil, OpenTransaction
+      sets db.tr and returns.  Close now waits for the write lock, which belongs to the transaction: its only
+      way on is the owner's Discard (Commit fails with ErrClosed at its closed test). *)
+Definition c09_late_tr : list action :=
+  [ACli 0 4 0; ACli 0 1 0; ACli 0 0 0; ACli 1 7 0; ACli 1 0 0; ACli 1 0 0; ACli 1 0 0; ACli 1 1 0;
+   ACli 0 2 0; ACli 0 1 0; ACli 0 0 0; ACli 0 0 0; AM 0; AM 0; AT 0; AT 0; AT 1; ACE 1].
+Example C09_close_waits_for_late_transaction :
+  match run fixed init c09_late_tr with
+  | Some s => Some (cli s 0, cli s 1, wl s, trown s, mc s, tc s, ce s,
+                    match step fixed s (ACli 1 0 0) with Some _ => true | None => false end)
+  | None => None
+  end = Some (IdleTr, CL4, WTr, Some 0, MDone, TDone, E_done, false).
+Proof. vm_compute. reflexivity. Qed.
 
 (* 4. The code before the repairs leaks: concrete schedules of the unfixed variants end in a state where a lock
       is held by nobody who will release it (and the repaired code, on the same schedule, does not). *)
